@@ -292,7 +292,8 @@ inductive Item where
   | other (o : Other)
   deriving DecidableEq, Repr
 
-/-! ### Tables (`VecMap` = array of options, modelled as an association list) -/
+/-! ### Tables (`BTreeMap<usize, _>`, modelled as an association list; before the repair of finding
+D18 they were `VecMap`s — arrays of options indexed by the client id, see `Legacy` below) -/
 
 def tGet {β : Type} : List (Nat × β) → Nat → Option β
   | [], _ => none
@@ -315,12 +316,11 @@ def zipAdd : List Int → List Int → List Int
 
 /-! ### Reader state -/
 
-/-- What the model needs to know about the environment: the format version (`has_ex`) and the
-number of `VecMap` slots the machine can allocate (`VecMap::insert(cid, _)` resizes the backing
-vector to `cid + 1` entries; see finding D18). -/
+/-- What the reader knows from the header: the format version (`has_ex`).  (Before the repair of
+finding D18 the model also needed the number of `VecMap` slots the machine can allocate; the tables
+are sparse maps now and an insertion costs one node whatever the client id is.) -/
 structure Cfg where
   hasEx : Bool
-  memCids : Nat
   deriving Repr
 
 structure Reader where
@@ -374,12 +374,10 @@ inductive Post where
   | item (it : Item) (rd : Reader)
   | finished (rd : Reader)
   | err (e : Err) (rd : Reader)
-  /-- `VecMap::insert` with a client id beyond what the machine can allocate (D18) -/
-  | oom (rd : Reader)
 
 def maxInt (a b : Int) : Int := if a ≥ b then a else b
 
-def Reader.post (cfg : Cfg) (rd0 : Reader) (it : FItem) : Post :=
+def Reader.post (rd0 : Reader) (it : FItem) : Post :=
   let rd : Reader := match it.cid with
     | some c => { rd0 with maxCid := maxInt rd0.maxCid c }
     | none => rd0
@@ -405,7 +403,6 @@ def Reader.post (cfg : Cfg) (rd0 : Reader) (it : FItem) : Post :=
   | .playerNew cid x y =>
     let rd := { rd with prevCid := some cid }
     if cid < 0 then .err .invalidClientId rd
-    else if cid.toNat ≥ cfg.memCids then .oom rd
     else match tGet rd.players cid.toNat with
       -- `insert` has already replaced the value when the duplicate is noticed
       | some _ => .err .playerNewDuplicate { rd with players := tSet rd.players cid.toNat (x, y) }
@@ -425,7 +422,6 @@ def Reader.post (cfg : Cfg) (rd0 : Reader) (it : FItem) : Post :=
         .item (.input cid n) { rd with inputs := tSet rd.inputs cid.toNat n }
   | .inputNew cid new =>
     if cid < 0 then .err .invalidClientId rd
-    else if cid.toNat ≥ cfg.memCids then .oom rd
     else .item (.input cid new) { rd with inputs := tSet rd.inputs cid.toNat new }
   | .finish => .finished rd
 
@@ -571,12 +567,11 @@ inductive ReadRes where
   | item (it : Item) (rd : Reader) (b : Buffer) (c : Cb)
   | finished (rd : Reader)
   | err (e : Err) (rd : Reader)
-  | oom (rd : Reader)
   | cbErr (rd : Reader)
   | outOfFuel
 
 /-- `Reader::read` from the point where the item kind is known (`rd.nextKind` has been taken). -/
-def Reader.readWithKind (cfg : Cfg) (rd : Reader) (k : Kind) (b : Buffer) (c : Cb) : ReadRes :=
+def Reader.readWithKind (_cfg : Cfg) (rd : Reader) (k : Kind) (b : Buffer) (c : Cb) : ReadRes :=
   match rd.pre k with
   | .emit it rd' => .item it rd' b c
   | .err e => .err e rd
@@ -586,11 +581,10 @@ def Reader.readWithKind (cfg : Cfg) (rd : Reader) (k : Kind) (b : Buffer) (c : C
     | .cbErr => .cbErr rd
     | .outOfFuel => .outOfFuel
     | .ok fit b c =>
-      match rd.post cfg fit with
+      match rd.post fit with
       | .item it rd' => .item it rd' b c
       | .finished rd' => .finished rd'
       | .err e rd' => .err e rd'
-      | .oom rd' => .oom rd'
 
 /-- `Reader::read` -/
 def Reader.read (cfg : Cfg) (rd : Reader) (b : Buffer) (c : Cb) : ReadRes :=
@@ -608,59 +602,77 @@ def Reader.read (cfg : Cfg) (rd : Reader) (b : Buffer) (c : Cb) : ReadRes :=
 inductive Final where
   | finished
   | err (e : Err)
-  | oom
   /-- the read callback failed: `Error::Cb(e)` / `Error::Io(e)` -/
   | cbErr
   | outOfFuel
   deriving DecidableEq, Repr
 
+/-- What the accessors of the reader return after the last `read` call: `cids().end`, and the two
+tables behind `player_pos(cid)` / `input(cid)`. -/
+structure Access where
+  cidsEnd : Int
+  players : List (Nat × (Int × Int))
+  inputs : List (Nat × List Int)
+  deriving DecidableEq, Repr
+
+/-- `Reader::new` failed: there is no reader to ask. -/
+def Access.none : Access := ⟨0, [], []⟩
+
+def Reader.access (rd : Reader) : Access := ⟨rd.cidsEnd, rd.players, rd.inputs⟩
+
+/-- `Reader::player_pos(cid)` for a non-negative `cid` (a negative one panics: `assert_usize`) -/
+def Access.playerPos (a : Access) (cid : Nat) : Option (Int × Int) := tGet a.players cid
+
+/-- `Reader::input(cid)` for a non-negative `cid` -/
+def Access.input (a : Access) (cid : Nat) : Option (List Int) := tGet a.inputs cid
+
 structure Output where
   items : List Item
   final : Final
-  /-- `Reader::cids().end` after the last call -/
-  cidsEnd : Int
+  /-- the accessors after the last call -/
+  access : Access
   deriving DecidableEq, Repr
+
+/-- `Reader::cids().end` after the last call -/
+def Output.cidsEnd (o : Output) : Int := o.access.cidsEnd
 
 def Output.cons (it : Item) (o : Output) : Output := { o with items := it :: o.items }
 
 /-- Call `Reader::read` until it returns `Ok(None)` or an error. -/
 def runItems (cfg : Cfg) : Nat → Reader → Buffer → Cb → Output
-  | 0, rd, _, _ => ⟨[], .outOfFuel, rd.cidsEnd⟩
+  | 0, rd, _, _ => ⟨[], .outOfFuel, rd.access⟩
   | fuel + 1, rd, b, c =>
     match rd.read cfg b c with
     | .item it rd' b' c' => (runItems cfg fuel rd' b' c').cons it
-    | .finished rd' => ⟨[], .finished, rd'.cidsEnd⟩
-    | .err e rd' => ⟨[], .err e, rd'.cidsEnd⟩
-    | .oom rd' => ⟨[], .oom, rd'.cidsEnd⟩
-    | .cbErr rd' => ⟨[], .cbErr, rd'.cidsEnd⟩
-    | .outOfFuel => ⟨[], .outOfFuel, rd.cidsEnd⟩
+    | .finished rd' => ⟨[], .finished, rd'.access⟩
+    | .err e rd' => ⟨[], .err e, rd'.access⟩
+    | .cbErr rd' => ⟨[], .cbErr, rd'.access⟩
+    | .outOfFuel => ⟨[], .outOfFuel, rd.access⟩
 
 /-- Enough `Reader::read` calls for a stream of `n` bytes: every item kind costs at least one
 byte and leads to at most four calls. -/
 def readFuel (n : Nat) : Nat := 4 * n + 8
 
-/-- The environment of a whole reading: the external header-content parser and the number of
-`VecMap` slots the machine can allocate. -/
+/-- The environment of a whole reading: the external header-content parser. -/
 structure Env where
   json : List UInt8 → Except Nat Int
-  memCids : Nat
 
 /-- `Reader::from_header` -/
-def Env.cfgOf (env : Env) (v : Int) : Option Cfg :=
-  if v = 1 then some { hasEx := false, memCids := env.memCids }
-  else if v = 2 then some { hasEx := true, memCids := env.memCids }
+def Env.cfgOf (_env : Env) (v : Int) : Option Cfg :=
+  if v = 1 then some { hasEx := false }
+  else if v = 2 then some { hasEx := true }
   else none
 
 /-- `Reader::new` followed by `read` until the end, for a given callback. -/
 def runCb (env : Env) (c : Cb) : Output :=
   match parseLoop (pHeader env.json) (c.measure + 1) Buffer.empty c with
-  | .err e => ⟨[], .err e, 0⟩
-  | .cbErr => ⟨[], .cbErr, 0⟩
-  | .outOfFuel => ⟨[], .outOfFuel, 0⟩
-  | .ok (.bad e) _ _ => ⟨[], .err (.header e), 0⟩
+  | .err e => ⟨[], .err e, Access.none⟩
+  | .cbErr => ⟨[], .cbErr, Access.none⟩
+  | .outOfFuel => ⟨[], .outOfFuel, Access.none⟩
+  | .ok (.bad e) _ _ => ⟨[], .err (.header e), Access.none⟩
   | .ok (.version v) b c' =>
     match env.cfgOf v with
-    | none => ⟨[], .err .unknownVersion, 0⟩
+    | none => ⟨[], .err .unknownVersion, Access.none⟩
     | some cfg => runItems cfg (readFuel c.rem.length) Reader.empty b c'
 
 /-- … the callback returning the read sizes `ds`.  `total` is the whole file, header included. -/
@@ -759,32 +771,31 @@ def preAll : Nat → Reader → Kind → List Item × PreEnd
 def interp (cfg : Cfg) (rd : Reader) : List Rec → Tail → Output
   | [], tail =>
     match tail with
-    | .afterFinish => ⟨[], .outOfFuel, rd.cidsEnd⟩   -- not reached: the `Finish` record ends `interp` below
-    | .kindEnd => ⟨[], .err .unexpectedEnd, rd.cidsEnd⟩
-    | .kindErr e => ⟨[], .err (.item e), rd.cidsEnd⟩
-    | .outOfFuel => ⟨[], .outOfFuel, rd.cidsEnd⟩
+    | .afterFinish => ⟨[], .outOfFuel, rd.access⟩   -- not reached: the `Finish` record ends `interp` below
+    | .kindEnd => ⟨[], .err .unexpectedEnd, rd.access⟩
+    | .kindErr e => ⟨[], .err (.item e), rd.access⟩
+    | .outOfFuel => ⟨[], .outOfFuel, rd.access⟩
     | .restEnd k =>
       match preAll 4 rd k with
-      | (its, .ready rd') => ⟨its, .err .unexpectedEnd, rd'.cidsEnd⟩
-      | (its, .err e rd') => ⟨its, .err e, rd'.cidsEnd⟩
-      | (its, .stuck) => ⟨its, .outOfFuel, rd.cidsEnd⟩
+      | (its, .ready rd') => ⟨its, .err .unexpectedEnd, rd'.access⟩
+      | (its, .err e rd') => ⟨its, .err e, rd'.access⟩
+      | (its, .stuck) => ⟨its, .outOfFuel, rd.access⟩
     | .restErr k e =>
       match preAll 4 rd k with
-      | (its, .ready rd') => ⟨its, .err (.item e), rd'.cidsEnd⟩
-      | (its, .err e' rd') => ⟨its, .err e', rd'.cidsEnd⟩
-      | (its, .stuck) => ⟨its, .outOfFuel, rd.cidsEnd⟩
+      | (its, .ready rd') => ⟨its, .err (.item e), rd'.access⟩
+      | (its, .err e' rd') => ⟨its, .err e', rd'.access⟩
+      | (its, .stuck) => ⟨its, .outOfFuel, rd.access⟩
   | r :: rs, tail =>
     match preAll 4 rd r.kind with
-    | (its, .stuck) => ⟨its, .outOfFuel, rd.cidsEnd⟩
-    | (its, .err e rd') => ⟨its, .err e, rd'.cidsEnd⟩
+    | (its, .stuck) => ⟨its, .outOfFuel, rd.access⟩
+    | (its, .err e rd') => ⟨its, .err e, rd'.access⟩
     | (its, .ready rd') =>
-      match rd'.post cfg r.item with
+      match rd'.post r.item with
       | .item it rd'' =>
         let o := interp cfg rd'' rs tail
         { o with items := its ++ it :: o.items }
-      | .finished rd'' => ⟨its, .finished, rd''.cidsEnd⟩
-      | .err e rd'' => ⟨its, .err e, rd''.cidsEnd⟩
-      | .oom rd'' => ⟨its, .oom, rd''.cidsEnd⟩
+      | .finished rd'' => ⟨its, .finished, rd''.access⟩
+      | .err e rd'' => ⟨its, .err e, rd''.access⟩
 
 /-- What reading the stream `s` (the bytes after the header) yields, independent of any buffer. -/
 def runWhole (cfg : Cfg) (s : List UInt8) : Output :=
@@ -795,12 +806,67 @@ def runWhole (cfg : Cfg) (s : List UInt8) : Output :=
 the header framing is parsed on the complete byte string. -/
 def reference (env : Env) (total : List UInt8) : Output :=
   match pHeader env.json total with
-  | .needMore => ⟨[], .err .unexpectedEnd, 0⟩
-  | .err e => ⟨[], .err (.item e), 0⟩   -- not reached: the header parser has no `err` result
-  | .ok (.bad e) _ => ⟨[], .err (.header e), 0⟩
+  | .needMore => ⟨[], .err .unexpectedEnd, Access.none⟩
+  | .err e => ⟨[], .err (.item e), Access.none⟩   -- not reached: the header parser has no `err` result
+  | .ok (.bad e) _ => ⟨[], .err (.header e), Access.none⟩
   | .ok (.version v) rest =>
     match env.cfgOf v with
-    | none => ⟨[], .err .unknownVersion, 0⟩
+    | none => ⟨[], .err .unknownVersion, Access.none⟩
     | some cfg => runWhole cfg rest
+
+/-! ### The reader before the repair of finding D18 (kept so that the history stays visible)
+
+Until the repair (`fix: teehistorian: Reader keeps player and input state in sparse maps`) the tables
+`players`/`inputs` were `vec_map::VecMap`s: arrays of options indexed by the client id.
+`VecMap::insert(cid, _)` resizes the backing vector to `cid + 1` entries, so one five-byte
+`PLAYER_NEW`/`INPUT_NEW` record with a large client id asked for up to 24 GiB + 88 GiB.  The legacy
+semantics below are the reference semantics of that reader on a machine that can allocate `slots`
+table entries; `none` stands for the failed allocation (process abort — or, observed, a machine
+that swaps itself to a halt).  Everything else is shared with the current model. -/
+namespace Legacy
+
+/-- The table slot the old `Reader::read` calls `VecMap::insert` with. -/
+def slotOf : FItem → Option Nat
+  | .playerNew cid _ _ => if cid < 0 then none else some cid.toNat
+  | .inputNew cid _ => if cid < 0 then none else some cid.toNat
+  | _ => none
+
+/-- The part of the old `Reader::read` after `read_item`; `none` = the table cannot be resized. -/
+def post (slots : Nat) (rd : Reader) (it : FItem) : Option Post :=
+  match slotOf it with
+  | some c => if c ≥ slots then none else some (rd.post it)
+  | none => some (rd.post it)
+
+/-- `interp` with the old tables. -/
+def interp (slots : Nat) (cfg : Cfg) (rd : Reader) : List Rec → Tail → Option Output
+  | [], tail => some (Teehistorian.interp cfg rd [] tail)
+  | r :: rs, tail =>
+    match preAll 4 rd r.kind with
+    | (its, .stuck) => some ⟨its, .outOfFuel, rd.access⟩
+    | (its, .err e rd') => some ⟨its, .err e, rd'.access⟩
+    | (its, .ready rd') =>
+      match post slots rd' r.item with
+      | none => none
+      | some (.item it rd'') =>
+        match interp slots cfg rd'' rs tail with
+        | none => none
+        | some o => some { o with items := its ++ it :: o.items }
+      | some (.finished rd'') => some ⟨its, .finished, rd''.access⟩
+      | some (.err e rd'') => some ⟨its, .err e, rd''.access⟩
+
+def runWhole (slots : Nat) (cfg : Cfg) (s : List UInt8) : Option Output :=
+  let r := parseAll cfg.hasEx (s.length + 1) s
+  interp slots cfg Reader.empty r.1 r.2
+
+/-- What the old reader made of the whole file `total` (header included). -/
+def reference (slots : Nat) (env : Env) (total : List UInt8) : Option Output :=
+  match pHeader env.json total with
+  | .ok (.version v) rest =>
+    match env.cfgOf v with
+    | some cfg => runWhole slots cfg rest
+    | none => some (Teehistorian.reference env total)
+  | _ => some (Teehistorian.reference env total)
+
+end Legacy
 
 end Tw.Teehistorian
